@@ -98,6 +98,7 @@ class Exec:
         self.override = override         # (name, expr, state) -> Iv or None : documented special transfer
         self.on_call = on_call
         self.on_assign = on_assign
+        self.var_types = {}      # declared C++ types of locals (integer division typing)
         self.inv = invariants or {}
         self.partition = partition or set()
         self.on_stmt = on_stmt
@@ -172,6 +173,12 @@ class Exec:
                         else:
                             cands.append(x * y)
                 return Iv(min(cands), max(cands))
+            if op == "/" and self.is_int_expr(e[2], st) and self.is_int_expr(e[3], st):
+                # C integer division truncates toward zero (monotone in the dividend for a divisor of fixed sign)
+                import math
+                if b.lo == b.hi and b.lo not in (0, INF, -INF) and a.lo not in (INF, -INF) and a.hi not in (INF, -INF):
+                    q1, q2 = a.lo / b.lo, a.hi / b.lo
+                    return Iv(math.trunc(min(q1, q2)), math.trunc(max(q1, q2)))
             if op == "/":
                 if b.lo > 0 or (b.lo == 0 and b.lo_s):
                     if a.lo >= 0:
@@ -230,6 +237,39 @@ class Exec:
             d = 1 if e[1] == "++" else -1
             return Iv(a.lo + d, a.hi + d, a.lo_s, a.hi_s)
         return TOP()
+
+    INT_T = {"int", "long", "unsigned long", "unsigned int", "size_t", "uint8_t", "byte", "long long", "const int", "const long", "const unsigned long", "uint16_t", "int16_t", "unsigned char", "const size_t"}
+
+    def is_int_expr(self, e, st: State) -> bool:
+        """the expression has an integer C++ type (so `/` truncates): literals, variables declared with an integer type (or,
+        for undeclared inputs of a run, given as exact Python ints), integer casts, arithmetic of such"""
+        if e is None or not isinstance(e, tuple):
+            return False
+        t = e[0]
+        if t == "lit":
+            return isinstance(e[1], int) and not isinstance(e[1], bool)
+        if t in ("var", "member"):
+            n = lname(e)
+            if n is None:
+                return False
+            ty = self.var_types.get(n)
+            if ty is not None:
+                return ty in self.INT_T
+            iv = st.v.get(n)
+            return iv is not None and isinstance(iv.lo, int) and isinstance(iv.hi, int) and not isinstance(iv.lo, bool)
+        if t == "cast":
+            return (e[1] or "").replace("const ", "") in {x.replace("const ", "") for x in self.INT_T}
+        if t == "un" and e[1] in ("-", "+"):
+            return self.is_int_expr(e[2], st)
+        if t == "bin" and e[1] in ("+", "-", "*", "/", "%"):
+            return self.is_int_expr(e[2], st) and self.is_int_expr(e[3], st)
+        if t in ("post", "pre"):
+            return self.is_int_expr(e[2], st)
+        if t == "sizeof":
+            return True
+        if t == "mcall" and e[2] == "length":
+            return True
+        return False
 
     def decide(self, c, st: State):
         """True / False / None for a condition"""
@@ -525,6 +565,8 @@ class Exec:
             for st in states:
                 self.on_stmt(s, st)
         if k == "decl":
+            if s.get("type"):
+                self.var_types[s["name"]] = s["type"]
             for st in states:
                 if s["init"] is not None:
                     self.effects(s["init"], st)
